@@ -214,7 +214,7 @@ class ZeroLinearOperator(LinearOperator):
         raise RuntimeError("ZeroLinearOperators are not invertible!")
 
     def logdet(self: Float[LinearOperator, "*batch M N"]) -> Float[Tensor, " *batch"]:
-        return torch.log(torch.tensor(0.0))
+        return torch.full(self.batch_shape, float("-inf"), dtype=self.dtype, device=self.device)
 
     def matmul(
         self: Float[LinearOperator, "*batch M N"],
